@@ -39,6 +39,7 @@ func runC18(c *Ctx, r *Report) {
 	l := c.L
 	defer c18r7(c, r)
 	defer c18r8(c, r)
+	defer c18r9(c, r)
 	hist := l.Named("fzf", "History")
 	fPath := l.Field("fzf", "History", "path")
 	fMod := l.Field("fzf", "History", "modified")
@@ -333,7 +334,7 @@ func runC18(c *Ctx, r *Report) {
 
 	// ---------------- R6 ----------------
 	r.rule("C18-R6", "B + A (cooperating sites)", "P1",
-		"the handler of --history-size updates History.maxSize of an already created history (under opts.History != nil), so the limit is honoured whichever of --history / --history-size comes last",
+		"the handler of --history-size updates History.maxSize of an already created history (under opts.History != nil) or creates the history again with the new limit, so the limit is honoured whichever of --history / --history-size comes last",
 		"`--history F --history-size N` (or the two options in different layers) keeps the default limit: the file is not capped to N")
 	pos := l.Fn("fzf", "parseOptions")
 	if pos == nil {
@@ -391,7 +392,56 @@ func runC18(c *Ctx, r *Report) {
 					refresh = true
 				}
 			})
-			r.check(refresh, relName(g)+":size refreshes existing history", g.Pos(), g, "the --history-size handler stores the new limit into the existing History.maxSize", "a history created earlier keeps its old limit")
+			// ... or create the history again with the new limit: it stores the parameter into a variable of
+			// parseOptions and calls a sibling closure that passes that variable to NewHistory
+			if !refresh {
+				newHist := l.Fn("fzf", "NewHistory")
+				cells := map[*ssa.Alloc]bool{}
+				eachInstr(g, func(in ssa.Instruction) {
+					if st, ok := in.(*ssa.Store); ok && st.Val == ssa.Value(g.Params[0]) {
+						if fv, ok := st.Addr.(*ssa.FreeVar); ok {
+							if al := freeVarAlloc(g, fv); al != nil {
+								cells[al] = true
+							}
+						}
+					}
+				})
+				eachInstr(g, func(in ssa.Instruction) {
+					call, ok := in.(*ssa.Call)
+					if !ok || newHist == nil {
+						return
+					}
+					fs, _ := calleesOf(call.Common())
+					if u, ok := call.Common().Value.(*ssa.UnOp); ok && u.Op == token.MUL {
+						if fv, ok := u.X.(*ssa.FreeVar); ok {
+							if al := freeVarAlloc(g, fv); al != nil {
+								for _, st := range storesToAlloc(al) {
+									if mc, ok := st.Val.(*ssa.MakeClosure); ok {
+										fs = append(fs, mc.Fn.(*ssa.Function))
+									}
+								}
+							}
+						}
+					}
+					for _, h := range fs {
+						if h.Parent() != g.Parent() {
+							continue
+						}
+						eachInstr(h, func(i2 ssa.Instruction) {
+							c2, ok := i2.(*ssa.Call)
+							if !ok || !callIs(c2.Common(), newHist) || len(c2.Call.Args) < 2 {
+								return
+							}
+							if u, ok := c2.Call.Args[1].(*ssa.UnOp); ok && u.Op == token.MUL {
+								if fv, ok := u.X.(*ssa.FreeVar); ok && cells[freeVarAlloc(h, fv)] {
+									refresh = true
+								}
+							}
+						})
+					}
+				})
+			}
+			r.check(refresh, relName(g)+":size refreshes existing history", g.Pos(), g, "the --history-size handler stores the new limit into the existing History.maxSize, or loads the history again with it", "a history created earlier keeps its old limit")
 		}
 		r.floor("handlers persisting the history size", nSet, 1)
 	}
